@@ -29,3 +29,15 @@ Definition fitsb (matcher : tmpl -> sched -> bool) (checks : list (tmpl -> sched
    than the template, so it was only ever compared with a truncated template *)
 Definition fewer_dims_than_template (T : tmpl) (r : sched) : bool :=
   Nat.ltb (length (sbounds r)) (tndims T).
+
+(* known finding F-C16-2, class `large_entries_float_tolerance`: a decidable predicate on the pair of matrices handed
+   to same_nonzero_singular_vectors.  The implementation compares the two projection matrices with
+   np.allclose(P_A, P_B, atol = 1e-10), whose DEFAULT rtol = 1e-5 dominates: two distinct subspaces whose principal
+   angle is below ~5e-6 are accepted as equal.  For integer rows that needs nearly parallel rows with large entries
+   (rank 1: sin(angle) >= 1 / (|u| |v|); first observed deviation at entries 318/317 vs 317/316).  Inside the class the
+   exact model [rowspace_eqb] and the float code may disagree; outside it L1 requires exact agreement. *)
+Definition large_entry_bound : Z := 300.
+Definition has_large_entry (M : list vec) : bool :=
+  existsb (existsb (fun x => large_entry_bound <? Z.abs x)) M.
+Definition large_entries_float_tolerance (A B : list vec) : bool :=
+  has_large_entry A || has_large_entry B.
